@@ -306,6 +306,22 @@ def _other_action(other: dict, target: str) -> Callable[[], Any]:
             return {"status": "external"}
 
         return ext
+    if kind == "external_keepstat":
+        # an update that keeps length and timestamps (cp -p / rsync -t / touch -r, or two writes within one tick)
+        def ext_keep():
+            st = os.stat(target)
+            with open(target, "rb") as f:
+                old = f.read()
+            new = other["text"].encode("utf-8")
+            new = (new + b" " * len(old))[: len(old)] if len(new) != len(old) else new
+            if old.endswith(b"\n") and len(new) >= 1:
+                new = new[:-1] + b"\n"
+            with open(target, "wb") as f:
+                f.write(new)
+            os.utime(target, ns=(st.st_atime_ns, st.st_mtime_ns))
+            return {"status": "external", "wrote": new.decode("utf-8", "replace")}
+
+        return ext_keep
     if kind == "delete":
         def rm():
             os.unlink(target)
